@@ -447,6 +447,68 @@ func charstringFamily(length int, budget time.Duration) mc.Family {
 	}
 }
 
+// fanoutFamily: multiplicative structures.  Subroutines may nest ten deep; if
+// every level calls the next one k times, d levels cost k^d.  The same with the
+// leaf doing each kind of thing (a line, a curve, a hint, a flex, nothing), and
+// with seac composites whose components are composites.  A font of a kilobyte
+// must not cost more than a bounded amount of time and memory.
+func fanoutFamily(budget time.Duration) mc.Family {
+	ks := []int{2, 3, 8, 12, 30, 100}
+	depths := []int{2, 5, 8, 9, 10}
+	leaves := []struct {
+		name string
+		code []byte
+	}{
+		{"hlineto", append(csNum(1), 6)},
+		{"rrcurveto", append(append(append(append(append(append(csNum(1), csNum(1)...), csNum(1)...), csNum(1)...), csNum(1)...), csNum(1)...), 8)},
+		{"hstem", append(append(csNum(1), csNum(2)...), 1)},
+		{"rmoveto", append(append(csNum(1), csNum(1)...), 21)},
+		{"closepath", []byte{9}},
+		{"nothing", nil},
+		{"number left on the stack", csNum(7)},
+	}
+	n := len(ks) * len(depths) * len(leaves)
+	return mc.Family{
+		Name: "charstring-call-fan-out", Items: n, Budget: budget, HangSeconds: 60,
+		Rule: fmt.Sprintf("a glyph that calls a subroutine which calls the next one k times, d levels deep (k in %v, d in %v: up to 100^10 leaf executions from under 3 KiB), the innermost doing one of %d things (a line, a curve, a hint, a move, closepath, nothing, leaving a number); through type1.Read; oracle as everywhere in C01: returns (a font or an error) within the watchdog and under the memory cap; non-trivial = all", ks, depths, len(leaves)),
+		Body: func(c *mc.Ctx, item int) mc.Verdict {
+			k := ks[item%len(ks)]
+			d := depths[(item/len(ks))%len(depths)]
+			leaf := leaves[item/len(ks)/len(depths)]
+			subrs := [][]byte{{11}, {11}, {11}, {11}} // entries 0-3 have fixed meanings
+			for i := 0; i < d-1; i++ {
+				var body []byte
+				for j := 0; j < k; j++ {
+					body = append(append(body, csNum(int32(4+i+1))...), 10)
+				}
+				subrs = append(subrs, append(body, 11))
+			}
+			subrs = append(subrs, append(append([]byte{}, leaf.code...), 11))
+			code := append(append([]byte{}, csNum(0)...), csNum(500)...)
+			code = append(code, 13)
+			code = append(append(code, csNum(0)...), csNum(0)...)
+			code = append(code, 21)
+			code = append(append(code, csNum(4)...), 10)
+			code = append(code, 9, 14)
+			err := readFontWith(code, subrs, 4)
+			c.Step()
+			out := "accepted"
+			if err != nil {
+				out = "rejected"
+			}
+			v := mc.Pass(out, true)
+			if c.Render() {
+				v.Render = fmt.Sprintf("%d calls per level, %d levels, leaf %s → %v", k, d, leaf.name, err)
+			}
+			return v
+		},
+		Describe: func(item int) string {
+			return fmt.Sprintf("%d calls per level, %d levels, leaf %s", ks[item%len(ks)], depths[(item/len(ks))%len(depths)], leaves[item/len(ks)/len(depths)].name)
+		},
+		CrashKey: func(item int) string { return "C01:crash:charstring-call-fan-out" },
+	}
+}
+
 // repeatFamily: one token repeated k times (after hsbw), optionally followed by
 // a second token: buffers sized for the well-formed case (24-entry operand
 // stack, 14 flex coordinates, 10 nested calls) must not be overrun.
@@ -639,7 +701,9 @@ func fontKnobCases() []struct {
 		}
 	}
 	// encodings with strange contents
-	for _, e := range []string{"256 array", "255 array", "257 array", "[ 256 {/A} repeat ]", "[ 256 {1} repeat ]", "[ 255 {/A} repeat (s) ]"} {
+	for _, e := range []string{"256 array", "255 array", "257 array", "[ 256 {/A} repeat ]", "[ 256 {1} repeat ]", "[ 255 {/A} repeat (s) ]",
+		"[ 257 {/A} repeat ]", "[ 300 {/.notdef} repeat ]", "300 array 0 1 299 {1 index exch /.notdef put} for", "65535 array 0 1 65534 {1 index exch /A put} for", "[ 256 {/A} repeat 1 ]", "0 array", "[ /A ]",
+		"StandardEncoding 0 300 getinterval", "StandardEncoding 1 255 getinterval", "StandardEncoding dup 65 (str) put", "[ 256 {StandardEncoding} repeat ]"} {
 		add("Encoding="+e, fontSpec{encLenIV: 4, top: "/Encoding " + e + " def\n"})
 	}
 	// seac with hostile component codes
@@ -836,6 +900,7 @@ func main() {
 				scannerFamily("scanner-lexical-bytes", lexBytes, lexLen, budget),
 				charstringFamily(csLen, budget),
 				repeatFamily(budget),
+				fanoutFamily(budget),
 				mc.Family{
 					Name: "font-knobs", Items: len(knobs), Budget: budget,
 					Rule: "type1.Read on generated fonts: /lenIV from 17 values (min int, -2^40, -1, 0..7, 65536, 2^31, 2^62, max int, real, string, name, boolean) x charstrings of 0..9 bytes; missing FontInfo/Private/CharStrings/FontType; every dictionary entry the reader looks at (9 top-level, 10 Private, 9 FontInfo) set to each of 14 wrongly typed values; odd Encoding arrays; seac with hostile component codes x 4 encodings; the font directory filled through put / defineresource / definefont / def with 20 kinds of non-font values; no font; two fonts; non-trivial = every case",
